@@ -314,6 +314,42 @@ fn gen_deep() -> BoxedStrategy<Value> {
         .boxed()
 }
 
+// ------------------------------------------------------------------------------------------------ accumulated state
+
+/// the working-set sweeps of C17 (W hot keys, a new key, the hot set again, for every W up to 300) under the totality oracle
+fn check_sweep_total(case: &Value, obs: &mut Obs) -> Result<(), String> {
+    let w = case["w"].as_u64().unwrap_or(1) as usize;
+    let kind = case["kind"].as_u64().unwrap_or(0);
+    for (rule, data) in super::c17::sweep_calls(w, kind) {
+        total(&rule, &data, obs)?;
+    }
+    // the public helpers see the same sequence of strings
+    let strings: Vec<String> = (0..w).chain(0..w).chain(w..w + 1).chain(0..=w).map(|k| format!("{}", 1000 + k)).collect();
+    let r = imp::guarded(|| {
+        for s in &strings {
+            let _ = jsonlogic_rs::js_op::str_to_number(s);
+            let _ = jsonlogic_rs::js_op::parse_float(&json!(format!("{}px", s)));
+            let _ = jsonlogic_rs::js_op::to_number(&json!(s));
+        }
+        let _ = jsonlogic_rs::js_op::str_to_number("0x10");
+    });
+    if let Err(m) = r {
+        return Err(format!("a public js_op helper panicked ({}) during a working-set sweep with {} hot strings", m, w));
+    }
+    obs.nt(&format!("sweep kind {} W {}", kind, if w < 64 { "<64" } else if w < 128 { "64-127" } else { "128+" }));
+    Ok(())
+}
+
+fn fixed_sweeps_total() -> Vec<Value> {
+    let mut out = vec![];
+    for kind in 0..6u64 {
+        for w in 1..=300usize {
+            out.push(json!({"w": w, "kind": kind}));
+        }
+    }
+    out
+}
+
 // ------------------------------------------------------------------------------------------------ public helpers
 
 fn check_helpers(case: &Value, obs: &mut Obs) -> Result<(), String> {
@@ -525,6 +561,18 @@ pub fn property() -> Property {
                 quick: 6_000,
                 thorough: 300_000,
                 small_stack: true,
+            },
+            Sub {
+                name: "working_set_sweep",
+                about: "accumulated state: for every W in 1..300 and six kinds of keyed work, W hot items touched twice, a new item, the hot set again (through apply and through the public helpers str_to_number / parse_float / to_number): no call may panic, whatever capacity boundary, eviction or collision path it lands on.",
+                nontrivial: "every case.",
+                strategy: None,
+                fixed: Some(fixed_sweeps_total),
+                fixed_exhaustive: false,
+                check: check_sweep_total,
+                quick: 0,
+                thorough: 0,
+                small_stack: false,
             },
             Sub {
                 name: "helpers",
